@@ -278,6 +278,18 @@ def oracle_observers(scn, res):
                 if not ok:
                     v.append((ci, "observer/replies-differ-from-returned", "observer %d saw marks %s, call returned %s" % (
                         o, marks_seen, returned_marks(a["out"]))))
+            # a listing that returned: the observer was told the listing text - exactly once, exactly the text returned,
+            # after the preliminary and before the completion reply (also when the listing is empty)
+            if call[0] == "F" and a["out"].startswith("ret:list:") and e.get("moves_data"):
+                ls = [i for i, x in enumerate(sq) if x.startswith("l:")]
+                text = a["out"].rsplit(":", 1)[1]
+                rs = [i for i, x in enumerate(sq) if x.startswith("r:")]
+                if len(ls) != 1:
+                    v.append((ci, "observer/listing-text-not-told-once", "observer %d was told the listing %d times (text %s)" % (o, len(ls), text[:40])))
+                elif sq[ls[0]][2:] != text:
+                    v.append((ci, "observer/listing-text-differs", "observer %d: %s vs returned %s" % (o, sq[ls[0]][2:42], text[:40])))
+                elif len(rs) >= 2 and not (rs[-2] < ls[0] < rs[-1]):
+                    v.append((ci, "observer/listing-text-out-of-order", "positions: replies %s, listing %s" % (rs, ls)))
         # registration order at every event: the global log interleaves observers in registration order
         order = [int(t.split(":")[0][1:]) for t in ev if t.startswith("O")]
         n = len(registered)
@@ -400,6 +412,8 @@ def add_simple(b, rng, code=None):
 
 def add_transfer(b, rng, dist, **kw):
     kind = kw.pop("kind", None) or rng.choice(["D", "U", "F"])
+    # the preliminary reply: 150 (about to open the data connection), 125 (already open), any other 1yz
+    kw.setdefault("cmd_code", rng.choice([150, 150, 150, 125, 125, 100, 199]))
     if kind == "U":
         chunks = [c for c in rand_payload(rng) if c]
         b.transfer("U", rng.choice(TEXTS), chunks=chunks, upverb=rng.choice("SUA"), **kw)
@@ -437,7 +451,7 @@ def gen_mixed(rng, tier, dist, n, tls=False, observers=True, refusals=True, canc
                 b.set_type(rng.choice("IA"), rng.choice([200, 200, 504, 150 if False else 250]))
                 dist.add("call:set_type")
             elif r < 0.46:
-                b.rename(rng.choice(TEXTS), rng.choice(TEXTS), rng.choice([350, 350, 550, 450, 250]), rng.choice([250, 553]))
+                b.rename(rng.choice(TEXTS), rng.choice(TEXTS), rng.choice([350, 350, 550, 450, 250, 331, 332, 300, 399, 351]), rng.choice([250, 553]))
                 dist.add("call:rename")
             elif r < 0.5 and observers:
                 if rng.random() < 0.5:
@@ -599,6 +613,12 @@ def fam_uploads(rng, n, dist, thorough=False):
                     k = 8192
                 chunks.append(data[pos:pos + k])
                 pos += k
+            if rng.random() < 0.25:
+                # a source that returns more after an empty read (record-oriented, growing file): the upload is what
+                # came before the first empty read
+                k = rng.randrange(0, len(chunks) + 1)
+                chunks = chunks[:k] + [b""] + [b"LATE" * rng.choice([1, 3000])] + chunks[k:]
+                dist.add("upload:source-yields-after-empty-read")
             ci = b.transfer("U", b"up.bin", chunks=chunks, upverb=rng.choice("SUA"), cb=rng.choice([None, [False] * 300]))
             if rng.random() < 0.3 and ci in b.xfer_map:
                 si, ri = b.xfer_map[ci]
@@ -725,8 +745,8 @@ def fam_tls(rng, n, dist):
     for i in range(n):
         mode, rfc = ALL_METHODS[i % 4]
         fault = rng.choice([None, None, "auth-refused", "ctl-handshake", "pbsz", "prot", "data-handshake", "truncate", "truncate",
-                            "truncate", "unknown-ca", "unclean-close"])
-        verify = "unknown" if fault == "unknown-ca" else rng.choice(["trusted", "trusted", "none"])
+                            "truncate", "unknown-ca", "unclean-close", "data-rogue-cert", "data-rogue-cert"])
+        verify = "unknown" if fault == "unknown-ca" else ("trusted" if fault == "data-rogue-cert" else rng.choice(["trusted", "trusted", "none"]))
         b = S.Builder(rng, mode, rfc, type=rng.choice("IIA"), tls=True, resume=rng.random() < 0.6,
                       tlsver=rng.choice(["12", "12", "13"]), verify=verify)
         if rng.random() < 0.5:
@@ -739,16 +759,22 @@ def fam_tls(rng, n, dist):
         if fault in ("auth-refused", "ctl-handshake", "unknown-ca"):
             b.disconnect(False)
             out.append(b.scenario()); continue
-        for k in range(rng.randrange(1, 5)):
+        nops = rng.randrange(1, 5)
+        rk = rng.randrange(0, nops)          # the transfer whose data port is answered by somebody else
+        for k in range(nops):
             kind = rng.choice(["D", "U", "F", "S"])
-            if kind == "S":
+            if kind == "S" and not (fault == "data-rogue-cert" and k == rk):
                 add_simple(b, rng, 200)
                 continue
+            if kind == "S":
+                kind = "D"
             df = None
             if fault == "data-handshake" and k == 0:
                 df = "handshake"
             if fault == "truncate" and k == 0 and kind != "U":
                 df = "truncate"
+            if fault == "data-rogue-cert" and k == rk:
+                df = "rogue-cert"
             payload = [b"PAYLOAD-MARKER " * rng.choice([0, 1, 50]), b"z" * rng.choice([0, 1, 9000])]
             payload = [x for x in payload if x]
             if df == "truncate":
@@ -909,6 +935,12 @@ def oracle_tls(scn, res):
             d = r.get("data") or {}
             if d.get("tls") and d.get("end") == "X" and not a["out"].startswith("throw"):
                 v.append((ci, "tls/truncated-data-stream-delivered-as-complete", a["out"][:80]))
+        if key:
+            r = scn["sessions"][key[0]]["reactions"][key[1]]
+            d = r.get("data") or {}
+            # a data connection answered with a certificate the client cannot verify must fail like the control one would
+            if d.get("tls") and d.get("cert") == "rogue" and scn["cfg"]["verify"] != "none" and not a["out"].startswith("throw"):
+                v.append((ci, "tls/data-connection-accepted-unverifiable-certificate", a["out"][:80]))
     return v
 
 
@@ -1055,13 +1087,13 @@ FAMILIES = dict(mixed=lambda rng, n, dist, th: gen_mixed(rng, "quick", dist, n),
 PROPS = {
     # id: families with their share of the scenario budget, correspondence projections, oracles
     "C02": dict(fam=[("mixed", 5), ("abor", 2), ("refusals", 1)], proj=["out", "state", "wire"], oracles=["lockstep"]),
-    "C09": dict(fam=[("args", 4), ("mixed", 2)], proj=["out", "wire"], oracles=["commands"]),
+    "C09": dict(fam=[("args", 4), ("mixed", 2), ("reconnect", 2)], proj=["out", "wire"], oracles=["commands"]),
     "C10": dict(fam=[("mixed", 6), ("args", 1), ("refusals", 1), ("tls", 2)], proj=["out", "state", "wire"], oracles=["commands", "state"]),
     "C14": dict(fam=[("observers", 5), ("mixed", 2)], proj=["out", "obs"], oracles=["observers"]),
     "C03": dict(fam=[("downloads", 6), ("mixed", 1)], proj=["out", "io"], oracles=["transfers"]),
     "C04": dict(fam=[("uploads", 6), ("mixed", 1)], proj=["out", "io", "wire"], oracles=["transfers"]),
     "C07": dict(fam=[("refusals", 6), ("mixed", 1)], proj=["out", "io", "held", "wire"], oracles=["transfers", "sockets", "lockstep"]),
-    "C12": dict(fam=[("cancel", 5), ("mixed", 1), ("uploads", 1)], proj=["out", "io", "wire"], oracles=["transfers", "commands"]),
+    "C12": dict(fam=[("cancel", 5), ("mixed", 1), ("uploads", 1)], proj=["out", "io", "wire"], oracles=["transfers", "commands", "lockstep"]),
     "C17": dict(fam=[("mixed", 3), ("refusals", 1), ("cancel", 1), ("reconnect", 1), ("tls", 1)], proj=["out", "held"], oracles=["sockets"]),
     "C11": dict(fam=[("tls", 6), ("reconnect", 1)], proj=["out", "state", "wire"], oracles=["tls", "commands"], n=(90, 500)),
     "C13": dict(fam=[("reconnect", 6), ("tls", 1)], proj=["out", "state", "held", "wire"], oracles=["state", "sockets", "lockstep", "tls"], n=(120, 600)),
